@@ -25,12 +25,25 @@
 (* with it exactly-once delivery on a file that merely grew between the last    *)
 (* read attempt of a round and the stat - a file that STAYS IN PLACE takes the  *)
 (* re-open branch too; the other two are negative controls.                     *)
+(*                                                                              *)
+(* THE PATH MAY BE A SYMBOLIC LINK (PathKind = "link"; the link stays, the file  *)
+(* it leads to receives the appends and is removed / re-created).  Follow.tla's  *)
+(* `cur` is what the path resolves to, so "the size of the path" is the size of  *)
+(* that file.  StatMode says what the poller's look at the path reports:         *)
+(*   "stat"   the file the path leads to (os.Stat, the code)                     *)
+(*   "lstat"  the directory entry itself: for a link its own size LinkLen (the   *)
+(*            length of the link text), and it exists while the link does -      *)
+(*            control: a link shorter than what was delivered looks like a       *)
+(*            re-created, shorter file after every quiet round, and the whole    *)
+(*            file is delivered again although it only ever received appends     *)
 EXTENDS Bytes, TLC
 
 CONSTANTS Reopen, TailMode, InitLen, AppLens, MaxAppends, MaxRemoves, MaxCreates,
-          BufSize, ReadAttempts, Resume
+          BufSize, ReadAttempts, Resume,
+          PathKind, StatMode, LinkLen
 
 ASSUME Resume \in {"readBytes", "none", "size"}
+ASSUME PathKind \in {"file", "link"} /\ StatMode \in {"stat", "lstat"} /\ LinkLen \in Nat
 
 VARIABLES mode, files, cur, start, delivered, ended, fresh, dom,   \* Follow.tla
           f, pos, readBytes, att, pc, stSize,                      \* reader
@@ -90,12 +103,17 @@ PRead ==
          /\ UNCHANGED <<delivered, fresh, pos, readBytes>>
   /\ UNCHANGED <<mode, files, cur, start, ended, dom, f, stSize, seen, domP, nA, nR, nC, nb>>
 
+\* what the look at the path reports: does it exist, and its size
+SeesLink   == PathKind = "link" /\ StatMode = "lstat"
+PathExists == SeesLink \/ cur # 0
+PathSize   == IF SeesLink THEN LinkLen ELSE Len(files[cur])
+
 \* os.Stat(s.filename)
 PStat ==
   /\ pc = "stat"
   /\ IF Reopen THEN
-       /\ IF cur # 0 /\ Len(files[cur]) # readBytes
-          THEN pc' = "open" /\ stSize' = Len(files[cur])
+       /\ IF PathExists /\ PathSize # readBytes
+          THEN pc' = "open" /\ stSize' = PathSize
           ELSE pc' = "read" /\ UNCHANGED stSize
        \* ghost: the poller looks at a re-created file for the first time
        /\ IF cur > seen
@@ -104,7 +122,7 @@ PStat ==
           ELSE UNCHANGED <<seen, domP>>
        /\ UNCHANGED <<ended, f, pos>>
      ELSE
-       /\ IF cur = 0
+       /\ IF ~PathExists
           THEN ended' = TRUE /\ f' = 0 /\ pos' = 0 /\ pc' = "done"    \* s.Close(); return 0, io.EOF
           ELSE pc' = "read" /\ UNCHANGED <<ended, f, pos>>
        /\ UNCHANGED <<stSize, seen, domP>>
